@@ -12,6 +12,7 @@ import (
 	"fmt"
 	"os"
 	"path/filepath"
+	"runtime/pprof"
 	"sort"
 	"strings"
 	"testing"
@@ -83,6 +84,29 @@ func TestVerifC04qr(t *testing.T) {
 		}
 		res.Sample(map[string]any{"file": base, "walks": len(walks)})
 	}
+	// Stall watchdog (outside every bubble, real time): a goroutine of the code under test that blocks on a mutex for ever is
+	// invisible to synctest's deadlock detection. A bubble takes milliseconds; when none completes for minutes the process
+	// dumps its goroutines and exits, and the driver decides (re-run, frames of the package on the stacks).
+	stallAfter := time.Duration(vfh.EnvInt("VERIF_C04QR_STALL_S", 240)) * time.Second
+	stop := make(chan struct{})
+	defer close(stop)
+	go func() {
+		last, since := vfQrProgress.Load(), time.Now()
+		for {
+			select {
+			case <-stop:
+				return
+			case <-time.After(2 * time.Second):
+			}
+			if cur := vfQrProgress.Load(); cur != last {
+				last, since = cur, time.Now()
+			} else if time.Since(since) > stallAfter {
+				fmt.Fprintf(os.Stderr, "VFSTALL: no bubble completed for %s\n", stallAfter)
+				pprof.Lookup("goroutine").WriteTo(os.Stderr, 2)
+				os.Exit(7)
+			}
+		}
+	}()
 	budget := &vfQrBudget{m: map[string]int{}}
 	run := func(t *testing.T, j vfQrJob) {
 		if j.part == "pool" {
